@@ -580,6 +580,73 @@ theorem non_query_passed (stores : Nat → Store) (cfg : MatcherCfg) (qname : By
   unfold questionRespond
   exact (pass_iff stores cfg _ qt).2 (Or.inr h)
 
+/-! ### What the builder makes of the configuration and the environment -/
+
+/-- A list is asked only when the group (or profile) switches it on *and* the builder has created
+its filter (`SAFE_BROWSING_ENABLED`, `ADULT_BLOCKING_ENABLED`, `NEW_REG_DOMAINS_ENABLED`). -/
+theorem mem_builtLists (sbEnv adultEnv nrdEnv : Bool) (enabled : List Nat) (i : Nat) :
+    i ∈ builtLists sbEnv adultEnv nrdEnv enabled ↔
+      i ∈ enabled ∧ ((i = 0 ∧ sbEnv = true) ∨ (i = 1 ∧ adultEnv = true) ∨ (i = 2 ∧ nrdEnv = true)) := by
+  unfold builtLists
+  simp only [List.mem_filter, Bool.or_eq_true, Bool.and_eq_true, beq_iff_eq, or_assoc]
+
+/-- The host clause for the server as built: for every combination of environment switches and of
+the group's switches, some list claims the question ⇔ A/AAAA/HTTPS and the host or a parent is a
+name of the last installed text of a list that is switched on in the group and exists. -/
+theorem built_question_spec (H : Bytes → Bytes) (hH : Injective H) (ps : Bytes → Bytes × Bool)
+    (stores : Nat → Store) (ops : List (Nat × Bytes)) (texts : Nat → Bytes)
+    (sbEnv adultEnv nrdEnv sbOn danger newReg parOn adult : Bool)
+    (hl : ∀ i, i < 3 → lastGood i ops = some (texts i)) (qname : Bytes) (qt : Nat) :
+    (questionVerdict H ps (runResets H stores ops)
+        (builtLists sbEnv adultEnv nrdEnv (enabledLists sbOn danger newReg parOn adult)) qname qt).isSome = true ↔
+      (qt = 1 ∨ qt = 28 ∨ qt = 65) ∧
+        ∃ i, ((i = 0 ∧ sbEnv = true ∧ sbOn = true ∧ danger = true) ∨
+              (i = 1 ∧ adultEnv = true ∧ parOn = true ∧ adult = true) ∨
+              (i = 2 ∧ nrdEnv = true ∧ sbOn = true ∧ newReg = true)) ∧
+          ∃ s, Candidate ps (normalizeDomain qname) s ∧ s ∈ listed (texts i) := by
+  have hmem : ∀ i, i ∈ builtLists sbEnv adultEnv nrdEnv (enabledLists sbOn danger newReg parOn adult) ↔
+      ((i = 0 ∧ sbEnv = true ∧ sbOn = true ∧ danger = true) ∨
+       (i = 1 ∧ adultEnv = true ∧ parOn = true ∧ adult = true) ∨
+       (i = 2 ∧ nrdEnv = true ∧ sbOn = true ∧ newReg = true)) := by
+    intro i
+    rw [mem_builtLists, mem_enabledLists]
+    constructor
+    · rintro ⟨h1, h2⟩
+      rcases h1 with ⟨rfl, a, b⟩ | ⟨rfl, a, b⟩ | ⟨rfl, a, b⟩ <;> rcases h2 with ⟨h, e⟩ | ⟨h, e⟩ | ⟨h, e⟩ <;>
+        simp_all
+    · rintro (⟨rfl, e, a, b⟩ | ⟨rfl, e, a, b⟩ | ⟨rfl, e, a, b⟩) <;> simp_all
+  have hl' : ∀ i ∈ builtLists sbEnv adultEnv nrdEnv (enabledLists sbOn danger newReg parOn adult),
+      lastGood i ops = some (texts i) := by
+    intro i hi
+    apply hl
+    rcases (hmem i).1 hi with ⟨rfl, _⟩ | ⟨rfl, _⟩ | ⟨rfl, _⟩ <;> omega
+  rw [question_verdict_spec H hH ps stores ops _ texts hl' qname qt]
+  constructor
+  · rintro ⟨hq, i, hi, hc⟩; exact ⟨hq, i, (hmem i).1 hi, hc⟩
+  · rintro ⟨hq, i, hi, hc⟩; exact ⟨hq, i, (hmem i).2 hi, hc⟩
+
+/-- The matcher as built: the general suffix is served from the dangerous-domains list, the
+parental suffix from the adult list, each exactly when its environment switch is on, and nothing
+else is configured (in particular no suffix for the newly-registered list). -/
+theorem builtCfg_spec (sbEnv adultEnv : Bool) (suf : Bytes) (i : Nat) :
+    (suf, i) ∈ builtCfg sbEnv adultEnv ↔
+      (suf = sbSuffix ∧ i = 0 ∧ sbEnv = true) ∨ (suf = pcSuffix ∧ i = 1 ∧ adultEnv = true) := by
+  unfold builtCfg
+  cases sbEnv <;> cases adultEnv <;> simp
+  exact Or.comm
+
+/-- Neither production suffix is a suffix of the other (the hypothesis `hu` of `txt_query_spec`
+for the matcher as built). -/
+theorem built_suffixes_apart : ¬ sbSuffix <:+ pcSuffix ∧ ¬ pcSuffix <:+ sbSuffix := by decide
+
+/-- A refresh from the URL that brings an empty body leaves the list alone; any other text goes to
+`Reset`. -/
+theorem installText_spec (H : Bytes → Bytes) (st : Store) (text : Bytes) :
+    (text = [] → installText H st text = (st, none)) ∧
+    (text ≠ [] → installText H st text = reset H st text) := by
+  unfold installText
+  constructor <;> intro h <;> simp [h]
+
 /-- Before the first successful reset an (initially empty) storage lists nothing. -/
 theorem empty_never_filters (H : Bytes → Bytes) (ps : Bytes → Bytes × Bool) (ops : List (Nat × Bytes))
     (i : Nat) (host : Bytes) (qt : Nat) (hl : lastGood i ops = none) :
@@ -647,6 +714,65 @@ theorem matches_during_resets_spec (H : Bytes → Bytes) (hH : Injective H) (sto
   constructor
   · rintro ⟨n, hn, he⟩; exact hH n host he ▸ hn
   · intro hm; exact ⟨host, hm, rfl⟩
+
+/-- `Storage.MatchesAny` reads the shared map once: with the same map at the look-up of every
+candidate the loop is `firstMatch` on that map. -/
+theorem firstMatchLoads_snapshot (H : Bytes → Bytes) (st : Store) (subs : List Bytes) :
+    firstMatchLoads H (List.replicate subs.length st) subs = firstMatch H st subs := by
+  induction subs with
+  | nil => rfl
+  | cons s subs ih =>
+    simp only [List.length_cons, List.replicate_succ, firstMatchLoads]
+    by_cases hm : «matches» H st s = true
+    · by_cases hs : s = []
+      · subst hs; simp [firstMatch, List.find?, hm]
+      · simp [firstMatch, List.find?, hm, hs]
+    · rw [if_neg hm, ih]
+      simp [firstMatch, List.find?, hm]
+
+/-- **One question, one list version.**  `ops` is the whole history of resets of all storages; a
+`FilterRequest` on the filter over storage `i` loads the shared map when the first `k` of them have
+stored theirs, and the others may run while it walks the candidates.  Its verdict is that of the
+list text of the last successful reset among those `k`: listed ⇔ A/AAAA/HTTPS and the host or a
+parent (at most four labels, below the public suffix) is a name of that text — a version that was
+in force during the call, never a mixture of two. -/
+theorem filter_during_resets_spec (H : Bytes → Bytes) (hH : Injective H) (ps : Bytes → Bytes × Bool)
+    (stores : Nat → Store) (ops : List (Nat × Bytes)) (i k : Nat) (text host : Bytes) (qt : Nat)
+    (hl : lastGood i (ops.take k) = some text) :
+    (filterRuleLoads H ps (List.replicate (hashableSubdomains ps host).length (storeAt H stores ops k i))
+        host qt).isSome = true ↔
+      (qt = 1 ∨ qt = 28 ∨ qt = 65) ∧ ∃ s, Candidate ps host s ∧ s ∈ listed text := by
+  have h := filter_verdict_spec H hH ps stores (ops.take k) i text host qt hl
+  unfold filterRuleLoads
+  rw [firstMatchLoads_snapshot]
+  exact h
+
+/-- The rule reported by a question that overlaps resets is a candidate and a name of that same
+version of the list. -/
+theorem filter_rule_during_resets (H : Bytes → Bytes) (ps : Bytes → Bytes × Bool)
+    (stores : Nat → Store) (ops : List (Nat × Bytes)) (i k : Nat) (host r : Bytes) (qt : Nat)
+    (h : filterRuleLoads H ps (List.replicate (hashableSubdomains ps host).length (storeAt H stores ops k i))
+        host qt = some r) :
+    filterRule H ps (storeAt H stores ops k i) host qt = some r := by
+  unfold filterRuleLoads at h
+  rw [firstMatchLoads_snapshot] at h
+  exact h
+
+/-- Two versions of a list for the counter-example below (`H` = identity, no public suffix): the
+first lists the parent `b.c`, the second the host `a.b.c` itself. -/
+def verParent : Store := build (fun x => x) [[98, 46, 99]]
+def verHost : Store := build (fun x => x) [[97, 46, 98, 46, 99]]
+def psNone (_ : Bytes) : Bytes × Bool := ([], false)
+
+/-- Why the single load matters (the defect of the unchanged tree, fixed by `Storage.MatchesAny`):
+`a.b.c` is listed under both versions, by different names.  Look the host up in the version that
+lists the parent, let the reset land, look the parent up in the version that lists the host: not
+listed, the verdict of neither version. -/
+theorem filter_reload_counterexample :
+    filterRule (fun x => x) psNone verParent [97, 46, 98, 46, 99] 1 = some [98, 46, 99] ∧
+    filterRule (fun x => x) psNone verHost [97, 46, 98, 46, 99] 1 = some [97, 46, 98, 46, 99] ∧
+    filterRuleLoads (fun x => x) psNone [verParent, verHost, verHost] [97, 46, 98, 46, 99] 1 = none := by
+  decide
 
 /-- Two versions of a list for the counter-examples below (`H` = identity): prefixes `[1,2]` and
 `[5,6]`, two names against one under the first. -/
@@ -789,6 +915,8 @@ example : hashes (reset (fun x => x) Store.empty [97, 98, 99, 10, 97, 98, 99, 10
     [[97, 98, 99], [97, 98, 99]] := by decide
 /-- A name in the declarative sense: `c` from the last, unterminated line `c\r`. -/
 example : lastGood 0 ([(0, [97, 10]), (0, [98, 10]), (1, [99])].take 2) = some [98, 10] := by decide
+example : filterRuleLoads (fun x => x) psNone (List.replicate 3 verHost) [97, 46, 98, 46, 99] 1 =
+    some [97, 46, 98, 46, 99] := by decide
 example : storeAt (fun x => x) (fun _ => Store.empty) [(0, [1, 2, 3, 10]), (0, [1, 2, 4, 10])] 1 0 [1, 2] = [[3]] := by decide
 example : IsName [97, 10, 35, 98, 13, 10, 10, 99, 13] [99] :=
   ⟨by decide, by decide, [99, 13], ⟨by decide, [97, 10, 35, 98, 13, 10, 10], [], by decide,
@@ -821,6 +949,9 @@ example : (newStorage (fun x => x) [97, 10, 35, 98, 10]).2 = some 1 := by decide
 only (safe browsing is switched off as a whole), which lists `b.c`. -/
 example : normalizeDomain [65, 46, 66, 46, 67, 46] = [97, 46, 98, 46, 99] := by decide
 example : enabledLists false true true true true = [1] := by decide
+example : builtLists true false true (enabledLists true true true true true) = [0, 2] := by decide
+example : builtCfg true false = [(sbSuffix, 0)] := by decide
+example : (installText (fun x => x) (build (fun x => x) [[1, 2, 3]]) []).1 [1, 2] = [[3]] := by decide
 example : questionVerdict (fun x => x) psEx
     (runResets (fun x => x) (fun _ => Store.empty) [(0, [98, 46, 99, 10]), (1, [98, 46, 99, 10])])
     (enabledLists false true true true true) [65, 46, 66, 46, 67, 46] 1 = some (1, [98, 46, 99]) := by decide
@@ -873,6 +1004,15 @@ example : questionRespond (fun _ => Store.empty) [([46, 115], 0)] [115, 46] 16 =
 #print axioms hashes_during_resets_spec
 #print axioms matches_during_resets_spec
 #print axioms hashes_reload_counterexample
+#print axioms firstMatchLoads_snapshot
+#print axioms mem_builtLists
+#print axioms built_question_spec
+#print axioms builtCfg_spec
+#print axioms built_suffixes_apart
+#print axioms installText_spec
+#print axioms filter_during_resets_spec
+#print axioms filter_rule_during_resets
+#print axioms filter_reload_counterexample
 #print axioms legacy_tail_counterexample
 #print axioms private_suffix_counterexample
 #print axioms nested_private_counterexample
